@@ -327,6 +327,8 @@ class Analyzer:
         self.IN = {}
         self.notes = []
         self._addr_taken = self._compute_addr_taken()
+        self._facts_cache = {}
+        self.cur_block = None
         self._solve()
 
     # -- variable typing
@@ -510,6 +512,10 @@ class Analyzer:
             b = self.ev(e[3], st)
             if op in ('<', '<=', '>', '>=', '==', '!='):
                 return cmp_result(op, a, b)
+            if op == '-':
+                d = self._difference_fact(e[2], e[3])
+                if d is not None:
+                    return meet(sub(a, b), mk(d, INF)) or sub(a, b)
             r = {'+': add, '-': sub, '*': mul, '/': div, '%': mod, '<<': shl, '>>': shr, '&': band, '|': bor, '^': bxor}.get(op)
             if r is None:
                 return TOP
@@ -555,6 +561,29 @@ class Analyzer:
         if k == 'va_arg':
             return TOP
         return TOP
+
+    def _difference_fact(self, x, y):
+        """lower bound of x - y from branch facts that dominate the current
+        block (x, y plain variables that are not re-assigned in between):
+        y < x  =>  x - y >= 1 ;  y <= x  =>  x - y >= 0"""
+        b = getattr(self, 'cur_block', None)
+        if b is None:
+            return None
+        kx, ky = sx.key(sx.strip(x)), sx.key(sx.strip(y))
+        if kx is None or ky is None or kx[0] not in ('param', 'local') or ky[0] not in ('param', 'local'):
+            return None
+        facts = self._facts_cache.get(b)
+        if facts is None:
+            from . import templates
+            facts = templates.stable_facts(self.cf, b, None)
+            self._facts_cache[b] = facts
+        best = None
+        for a in facts:
+            if a == ('<', ky, kx):
+                best = 1
+            elif a == ('<=', ky, kx) and best is None:
+                best = 0
+        return best
 
     def _minmax(self, e, st):
         """(A < B) ? A : B  and friends: interval min / max"""
@@ -936,6 +965,7 @@ class Analyzer:
             if st is None:
                 continue
             out = st
+            self.cur_block = b
             for s in cf.blocks[b]['stmts']:
                 out = self.exec_stmt(s, out)
                 if out is None:
@@ -997,6 +1027,7 @@ class Analyzer:
                 IN[b] = new
                 # re-run the block to refresh edge outputs
                 out = new
+                self.cur_block = b
                 for s in cf.blocks[b]['stmts']:
                     out = self.exec_stmt(s, out)
                     if out is None:
@@ -1011,12 +1042,25 @@ class Analyzer:
                     self.edge_out[(b, s)] = so
         self.IN = IN
 
+    def infeasible_edges(self):
+        """edges that no abstract state can traverse"""
+        out = set()
+        for (b, s), st in self.edge_out.items():
+            if st is None and b in self.IN:
+                out.add((b, s))
+        for b in self.cf.blocks:
+            if b not in self.IN and b != self.cf.entry:
+                for s in self.cf.succ.get(b, []):
+                    out.add((b, s))
+        return out
+
     # -- queries
     def state_at(self, b, i):
         """state just before statement i of block b (i == len(stmts) -> before the branch condition)"""
         st = self.IN.get(b)
         if st is None:
             return None
+        self.cur_block = b
         blk = self.cf.blocks[b]
         for j, s in enumerate(blk['stmts']):
             if j >= i:
@@ -1101,3 +1145,64 @@ def _contains(e, target):
         if n is target:
             return True
     return False
+
+
+# ---------------------------------------------------------------- product analysis
+
+class _ProductFn:
+    """a Function-like view whose CFG is the product of f's CFG with a small
+    finite automaton (typestate / trace partitioning): node (b, q) has id
+    b * nq + q; transition(b, s, q) -> q' labels the edges"""
+
+    def __init__(self, f, nq, transition, q0=0):
+        self.name = f.name
+        self.file = f.file
+        self.tu = f.tu
+        self.d = f.d
+        self.params = f.params
+        self.locals = f.locals
+        self.nq = nq
+        self.base = f
+        blocks = {}
+        for b, blk in f.blocks.items():
+            for q in range(nq):
+                nb = dict(blk)
+                nb['id'] = b * nq + q
+                nb['succ'] = [None if s is None else s * nq + transition(b, s, q) for s in blk['succ']]
+                blocks[b * nq + q] = nb
+        self.blocks = blocks
+        self.entry = f.entry * nq + q0
+        self.exit = f.exit * nq        # nominal
+        # make every (exit, q) flow to the nominal exit
+        for q in range(1, nq):
+            blocks[f.exit * nq + q]['succ'] = [self.exit]
+
+    def stmts(self):
+        return self.base.stmts()
+
+    def block_exprs(self, b):
+        return self.base.block_exprs(b)
+
+    def all_nodes(self):
+        return self.base.all_nodes()
+
+    def calls(self):
+        return self.base.calls()
+
+    def param_index(self, n):
+        return self.base.param_index(n)
+
+    def where(self, ln=None):
+        return self.base.where(ln)
+
+
+def product_analysis(prog, f, nq, transition, q0=0, **kw):
+    """abstract interpretation of f partitioned by automaton state; returns
+    (analyzer, feasible) where feasible(b, q) says whether block b can be
+    entered in automaton state q"""
+    pf = _ProductFn(f, nq, transition, q0)
+    an = Analyzer(prog, pf, **kw)
+
+    def feasible(b, q):
+        return (b * nq + q) in an.IN and an.IN[b * nq + q] is not None
+    return an, feasible
